@@ -153,9 +153,10 @@ def mob_correspondence(ctx, n):
     ids = {}
 
     def nid(s):
-        if s not in ids:
-            ids[s] = len(ids) + 1
-        return ids[s]
+        # the tracker reports its ticks in the order of the names (sorted()): the model orders the numeric ids, so the encoding must be
+        # monotone in the names ("dot0" < "dot1" < ... < "dot5")
+        assert s.startswith("dot") and s[3:].isdigit() and len(s) == 4, s
+        return int(s[3:]) + 1
     enc = H.Enc()
     rows, info = [], []
     for _ in range(n):
